@@ -39,7 +39,10 @@ var cfgSpelling int
 
 var cfgSpellings = []string{"-config FILE", "-config=FILE", "--config FILE", "--config=FILE",
 	// relative names, resolved against the working directory as any file name is
-	"-config NAME (bare name, in the working directory)", "-config ./NAME", "-config=NAME (bare name)", "-config SUBDIR/NAME"}
+	"-config NAME (bare name, in the working directory)", "-config ./NAME", "-config=NAME (bare name)", "-config SUBDIR/NAME",
+	// the file reached through symbolic links: one link, and the way a Kubernetes ConfigMap volume presents it
+	// (vflow.conf -> ..data/vflow.conf, ..data -> ..<timestamp>/)
+	"-config LINK (symbolic link to the file)", "-config LINK (ConfigMap volume: link -> ..data/NAME, ..data -> directory)"}
 
 // runFlagSet runs the real option loading with the given environment, file content and arguments.
 func runFlagSet(env map[string]string, file string, args []string) (o *Options, err interface{}) {
@@ -55,7 +58,24 @@ func runFlagSet(env map[string]string, file string, args []string) (o *Options, 
 	if file != "" {
 		p := filepath.Join(optsDir(), "vflow.conf")
 		os.WriteFile(p, []byte(file), 0644)
-		if cfgSpelling >= 4 {
+		if cfgSpelling == 8 {
+			l := filepath.Join(optsDir(), "link.conf")
+			os.Remove(l)
+			if os.Symlink("vflow.conf", l) == nil {
+				p = l
+			}
+		}
+		if cfgSpelling == 9 {
+			cm := filepath.Join(optsDir(), "cm")
+			os.MkdirAll(filepath.Join(cm, "..2026_09_28"), 0755)
+			os.WriteFile(filepath.Join(cm, "..2026_09_28", "vflow.conf"), []byte(file), 0644)
+			os.Remove(filepath.Join(cm, "..data"))
+			os.Remove(filepath.Join(cm, "vflow.conf"))
+			if os.Symlink("..2026_09_28", filepath.Join(cm, "..data")) == nil && os.Symlink("..data/vflow.conf", filepath.Join(cm, "vflow.conf")) == nil {
+				p = filepath.Join(cm, "vflow.conf")
+			}
+		}
+		if cfgSpelling >= 4 && cfgSpelling <= 7 {
 			wd, _ := os.Getwd()
 			os.Chdir(optsDir())
 			defer os.Chdir(wd)
@@ -270,6 +290,9 @@ func optsSingle(tier string) mck.Space {
 				if d[3] >= 4 {
 					sp = ":relative-config-path"
 				}
+				if d[3] >= 8 {
+					sp = ":config-behind-symlink"
+				}
 			}
 			c.Violation(fmt.Sprintf("opts:precedence:%s:given[%s]%s", s.kind, strings.Join(have, "+"), sp), fmt.Sprintf("%s = %q, expected %q (from %s; config given as %s)", s.yaml, got, want, from, cfgSpellings[d[3]]), dd)
 		}
@@ -360,7 +383,7 @@ func optsFilter(tier string) mck.Space {
 			}
 		}
 	}
-	dims := mck.Radix{uint64(len(lists)), 3} // source: cmd, file, file+cmd
+	dims := mck.Radix{uint64(len(lists)), 5} // source: cmd, file, file+cmd, cmd with the flag repeated, file + repeated flag
 	return mck.FuncSpace{N: dims.Size(), F: func(idx uint64, c *mck.Ctx) {
 		d := dims.Digits(idx)
 		l := lists[d[0]]
@@ -375,7 +398,7 @@ func optsFilter(tier string) mck.Space {
 			want = append(want, uint32(v))
 		}
 		desc := func() interface{} {
-			return map[string]interface{}{"list": l, "source": []string{"cmd", "file", "file+cmd"}[d[1]]}
+			return map[string]interface{}{"list": l, "source": []string{"cmd", "file", "file+cmd", "cmd, one -sflow-type-filter per type", "file + cmd, one -sflow-type-filter per type"}[d[1]]}
 		}
 		c.SetCase(desc)
 		c.Nontrivial(mck.HashStr(strings.Join(l, ","), fmt.Sprint(d[1])))
@@ -417,6 +440,38 @@ func optsFilter(tier string) mck.Space {
 				c.Violation("opts:filter:cmd-over-file", fmt.Sprintf("file [7 8] + command line %v gave %v, expected the command line's %v", l, o.SFlowTypeFilter, want), desc())
 			}
 			c.Outcome("file+cmd")
+		case 3, 4: // the flag repeated, one occurrence per type: a type named in any occurrence is listed
+			if !valid || len(l) < 2 {
+				c.Skip()
+				return
+			}
+			var args []string
+			for _, t := range l {
+				args = append(args, "-sflow-type-filter", t)
+			}
+			file := ""
+			if d[1] == 4 {
+				file = "sflow-type-filter: [7, 8]\n"
+			}
+			o, err := runFlagSet(nil, file, args)
+			asSet := func(a []uint32) string {
+				m := map[uint32]bool{}
+				for _, v := range a {
+					m[v] = true
+				}
+				var k []int
+				for v := range m {
+					k = append(k, int(v))
+				}
+				sort.Ints(k)
+				return fmt.Sprint(k)
+			}
+			if err != nil || o == nil {
+				c.Violation("opts:filter:repeated-flag", fmt.Sprintf("%v failed: %v", args, err), desc())
+			} else if asSet(o.SFlowTypeFilter) != asSet(want) {
+				c.Violation("opts:filter:repeated-flag", fmt.Sprintf("%v (file %q) gave the filter %v, expected the types %v", args, file, o.SFlowTypeFilter, want), desc())
+			}
+			c.Outcome("repeated flag")
 		}
 	}}
 }
